@@ -381,6 +381,12 @@ def main():
         for f in rec['failed_obligations']:
             if f.get('replay_cmd'): print('native replay command:', f['replay_cmd'])
         sys.exit(1 if want & got else 0)
+    if viol and not any(f.get('input') for f in viol):
+        try:
+            import native_unit
+            native_unit.witness(run, viol)
+        except Exception as e:
+            run.notes.append(f'witness search error: {e}')
     if viol:
         run.evidence(viol, 'violation')
         path = run.replay(viol)
